@@ -118,22 +118,57 @@ func normRel(s string, sense bool) (string, bool) {
 			case "-1":
 				return "(" + b + " < 0)", sense
 			case "1":
-				return "(0 < " + b + ")", sense
+				return normRel("(0 < "+b+")", sense)
 			}
 		}
 	case "<":
+		// a.Cmp(b) > 0  ==  b.Cmp(a) < 0: one orientation
+		if l == "0" && (strings.HasPrefix(r, "big.(*Int).Cmp(") || strings.HasPrefix(r, "bytes.Compare(")) {
+			if sw := swapCallArgs(r); sw != "" {
+				return "(" + sw + " < 0)", sense
+			}
+		}
 		switch {
 		case l == "0" && isLen(r):
 			return "(0 == " + r + ")", !sense
 		case isLen(l) && r == "1":
 			return "(0 == " + l + ")", sense
 		case is3(l) && r == "1":
-			return "(0 < " + l + ")", !sense
+			return normRel("(0 < "+l+")", !sense)
 		case l == "-1" && is3(r):
 			return "(" + r + " < 0)", !sense
 		}
 	}
 	return s, sense
+}
+
+// swapCallArgs: f(a,b) -> f(b,a) for a two-argument call in canonical form.
+func swapCallArgs(c string) string {
+	i := strings.Index(c, "(")
+	// the callee spelling itself may contain parentheses: big.(*Int).Cmp(
+	for _, pre := range []string{"big.(*Int).Cmp(", "bytes.Compare(", "bytes.Equal(", "strings.Compare("} {
+		if strings.HasPrefix(c, pre) {
+			i = len(pre) - 1
+		}
+	}
+	if i < 0 || !strings.HasSuffix(c, ")") {
+		return ""
+	}
+	body := c[i+1 : len(c)-1]
+	depth := 0
+	for j := 0; j < len(body); j++ {
+		switch body[j] {
+		case '(', '{', '[':
+			depth++
+		case ')', '}', ']':
+			depth--
+		case ',':
+			if depth == 0 {
+				return c[:i+1] + body[j+1:] + "," + body[:j] + ")"
+			}
+		}
+	}
+	return ""
 }
 
 func splitTopRel(s string) (l, op, r string, ok bool) {
@@ -702,6 +737,30 @@ func (c *Ctx) Guard(fn *ssa.Function, cond Cond, tgt Target, opt Opt) bool {
 	fnName := load.QualName(fn)
 	what := "guard `" + cond.Canon + "`=" + fmt.Sprint(cond.Sense) + " rejects (" + tgt.Name + ")"
 	edges := CondEdges(fn, cond)
+	if len(edges) == 0 && tgt.Success {
+		// the decision may be returned as the verdict itself (`return a.Cmp(b) != 1`): such an exit
+		// answers true exactly when the condition does not have its rejecting value
+		want, sense := NormCond(cond.Canon, cond.Sense)
+		vs := sigOf(fn.Signature)
+		if vs.boolIdx >= 0 {
+			for _, ret := range Returns(fn) {
+				if vs.boolIdx >= len(ret.Results) {
+					continue
+				}
+				rv := Resolve(ret.Results[vs.boolIdx])
+				if _, isConst := rv.(*ssa.Const); isConst {
+					continue
+				}
+				s, pos := condCanon(rv)
+				// the returned value is (s == pos); it must be false when (want == sense)
+				if MatchCond(want, s) && pos != sense {
+					c.Sites++
+					c.OK("K5", fnName, what, c.At(ret), "the verdict returned is the negation of the rejecting condition")
+					return true
+				}
+			}
+		}
+	}
 	if len(edges) == 0 {
 		c.Fail("K5", fnName, what, "-", "no branch with this operator and operand provenance exists (check deleted, operator or operand changed)")
 		return false
